@@ -169,7 +169,7 @@ def run_native(binary, entry, assignment, params, timeout=10):
         if not t:
             continue
         if t[0] == "CHECK":
-            res["checks"].append((t[1], t[2] == "1"))
+            res["checks"].append((" ".join(t[1:-1]), t[-1] == "1"))     # ids may contain blanks
         elif t[0] == "OBS":
             res["obs"].append((t[1], float.fromhex(t[2]) if ("x" in t[2] or "nan" in t[2] or "inf" in t[2]) else int(t[2])))
         elif t[0] == "REACH":
